@@ -167,7 +167,7 @@ def run_all(pid, module, repo="/repo", verbose=False, jobs=None, seeded=True):
     for v, (status, rc, out) in zip(variants, outs):
         want = v.get("expect", "fire")
         ok = (status == "fired" and want == "fire") or (status == "silent" and want == "silent") or status == "skipped" or (status == "error" and want == "error")
-        if not ok and status == "fired" and pid in v.get("unresolved_for", ()):
+        if not ok and status in ("fired", "error") and pid in v.get("unresolved_for", ()):
             want, ok = "silent (declared unresolved false alarm)", True
         named = True
         if status == "fired" and v.get("obligation"):
@@ -189,6 +189,15 @@ def main():
     if not pids:
         pids = sorted(f[:-3].upper() for f in os.listdir(VDIR) if f.endswith(".py"))
     bad = 0
+    if len(pids) > 1:
+        # one fresh process per property: the analysing processes run under an address-space cap, and workers forked from a
+        # parent that has already evaluated fifteen properties would start with that parent's memory counted against them
+        import subprocess
+        for pid in pids:
+            r = subprocess.run([sys.executable, "-c", "import sys; sys.path.insert(0, %r); sys.argv = ['x', %r%s]; from sa.selftest import main; sys.exit(main())" % (
+                core.VERIF, pid, ", '-v'" if verbose else "")], cwd=core.VERIF)
+            bad += 1 if r.returncode else 0
+        return 1 if bad else 0
     for pid in pids:
         mod = importlib.import_module("sa.props.%s" % pid.lower())
         res = run_all(pid, mod, verbose=verbose)
